@@ -160,6 +160,8 @@ class CreateSection:
 
 
 def _np_data(o):
+    if o.get("calib") and o["dtype"] not in ("str", "bool"):
+        return P.make_calib_values(o["dtype"], tuple(o["shape"]), o.get("vseed", 0) or 1)
     return P.make_values(o["dtype"], tuple(o["shape"]), o.get("vseed", 0))
 
 
